@@ -803,15 +803,27 @@ def stored_file(payload, case):
     return pathlib.Path(path)
 
 
-def build_tree(payload, dec):
+def build_tree(payload, dec, sub=False):
+    """sub=True: the document is an element inside a larger tree (it has siblings and a tail of its own)."""
     try:
+        if sub:
+            body = payload[payload.find(b"?>") + 2 :] if payload.startswith(b"<?xml") else payload
+            if body.lstrip().startswith(b"<!DOCTYPE"):
+                sub = False
+            else:
+                payload = b"<outer-list>" + body + b"tail text of the element<sibling/>more</outer-list>"
         if dec.endswith("lxml"):
             from lxml import etree
 
-            return etree.fromstring(payload, etree.XMLParser(resolve_entities=False, remove_comments=False, remove_pis=False, huge_tree=True))
-        import xml.etree.ElementTree as ET
+            root = etree.fromstring(payload, etree.XMLParser(resolve_entities=False, remove_comments=False, remove_pis=False, huge_tree=True))
+        else:
+            import xml.etree.ElementTree as ET
 
-        return ET.fromstring(payload, parser=ET.XMLParser(target=ET.TreeBuilder(insert_comments=True, insert_pis=True)))
+            root = ET.fromstring(payload, parser=ET.XMLParser(target=ET.TreeBuilder(insert_comments=True, insert_pis=True)))
+        if sub:
+            first = next((child for child in root if isinstance(child.tag, str)), None)
+            return first if first is not None and first.tag != "sibling" else None
+        return root
     except RecursionError:
         raise
     except Exception:
@@ -944,7 +956,7 @@ def run_case(case, context, meter, base_steps):
             elif dec.startswith("xml-src-"):
                 # the caller hands over an already built tree (comments, processing instructions and unexpanded
                 # entity references kept); bytes no tree can be built from are not a case for this decoder
-                tree = build_tree(payload, dec)
+                tree = build_tree(payload, dec, sub=bool(case.get("seed", 0) % 2))
                 if tree is None:
                     meter.stop()
                     out.update(outcome="not_a_tree", steps=0, cpu=0.0, consumed=None)
